@@ -83,11 +83,16 @@ CHECKS = {
         note='Trusted: the harness oracle. Found and repaired F9, F14, F28, F28b, F36; F16/F27/F30 are known findings.',
         technique='Go-vs-Go round-trip exploration over a structured policy population (Coq printer/parser model pending)'),
     'C09': dict(
-        level='exploration', design='§6 C09',
-        text='No Coq theorem yet (policy JSON model under construction). Direct oracle: decode(encode p) has the identical AST up to the documented '
-             'normalisation, second encoding identical, policy-set ids preserved, text<->JSON commute, all encodings evaluate identically.',
-        note='Trusted: the harness oracle (incl. its normalisation normJ). Found and repaired F19, F32, F37.',
-        technique='Go-vs-Go round-trip exploration (Coq JSON-tree model pending)'),
+        level='proof', design='§0.2, §6 C09',
+        text='Model of internal/json on JSON trees (Impl/PolicyJson.v: MarshalJSON, UnmarshalJSON + ToNode, scopes, policies; values via Impl/ValueJson.v). '
+             'Theorems (Properties/C09.v): decoding the encoding yields the identical tree up to the normal form the format imposes (decimal / ip literals as '
+             'calls, record entries and annotations as key-sorted maps, empty pattern as one empty literal); whole policies; the normal form is idempotent, '
+             'a second trip is the identity, and it preserves evaluation. Correspondence: Policy.MarshalJSON tree = model tree; Policy.UnmarshalJSON = model on '
+             'encoder outputs and structure-aware mutants (objects with repeated keys, multi-member expression objects and case-folded keys are outside the '
+             'modelled domain and are not compared). Direct oracle on the Go code: AST identity, byte stability, ids, commutation with the text codec.',
+        note=TB + 'Modelled, not verified: encoding/json (bytes <-> tree, struct decoding rules for exact-case keys). Policy sets and the text<->JSON commutation are '
+                  'decided by the direct oracle only.',
+        technique='Coq proof of the JSON-tree codec round trip + tree-level differential correspondence + Go round-trip oracle'),
     'C10': dict(
         level='exploration', design='§6 C10',
         text='Crash / hang / stack exhaustion are runtime behaviour no Gallina model can exhibit (Gallina functions are total by construction): decided by '
